@@ -1,4 +1,4 @@
-import Glom.Spec.C14
+import Glom.Spec.C14Mode
 /-
   Helper lemmas for C14 (core Lean only).
 -/
@@ -34,6 +34,13 @@ theorem children_scalar (cs : Classes) (h : Heap) (v : Val)
   | ref a => simp [children, hv a rfl]
   | _ => rfl
 
+theorem regOK_cases {r : String} (h : regOK r = true) : r = "" ∨ r = "rev" ∨ r = "off" := by
+  simp only [regOK, Bool.or_eq_true, beq_iff_eq] at h
+  rcases h with (h | h) | h
+  · exact Or.inl h
+  · exact Or.inr (Or.inl h)
+  · exact Or.inr (Or.inr h)
+
 theorem filterMap_map_pairs {α β γ : Type} (l : List (α × β)) (f : α → γ) (g : γ → Option β)
     (p : α × β → Option β) (hp : ∀ e ∈ l, g (f e.1) = p e) :
     (l.map (fun e => f e.1)).filterMap g = l.filterMap p := by
@@ -60,11 +67,12 @@ theorem extendChildren_eq_children (cs : Classes) (h : Heap) (hw : heapWF cs h =
       cases o with
       | dict c es =>
         simp only [cellOK, Bool.and_eq_true, List.all_eq_true, beq_iff_eq] at hwo
-        obtain ⟨hd, hes⟩ := hwo
+        obtain ⟨⟨hd, hreg⟩, hes⟩ := hwo
         unfold extendChildren
-        simp only [hcn, Obj.cls, keysH, hd, if_true, getH, keysOf, ho, children]
+        simp only [hcn, Obj.cls, keysH, hd, if_true, getH, hreg, keysOf, ho, children]
         have hk : (KeysH.dictKeys == KeysH.objKeys) = false := by decide
-        simp only [hk, Bool.false_and, Bool.false_eq_true, if_false]
+        have hne : (("" : String) != "") = false := by decide
+        simp only [hk, Bool.false_and, Bool.false_eq_true, if_false, hne]
         apply filterMap_map_pairs (f := fun k => k)
         intro e he
         obtain ⟨hh, hl⟩ := hes e he
@@ -75,26 +83,26 @@ theorem extendChildren_eq_children (cs : Classes) (h : Heap) (hw : heapWF cs h =
         · simp only [hb, Bool.false_eq_true, if_false, pyGetitem, ho, hh, if_true, hl]
       | list c xs =>
         simp only [cellOK, Bool.and_eq_true, Bool.not_eq_true'] at hwo
-        have hit : iterH cs c = true := by simp [iterH, hwo.1]
-        have hg : seqGuard.any (isA cs c) = true := by simp [seqGuard, hwo.1]
+        obtain ⟨⟨hl, hnd⟩, hreg⟩ := hwo
+        have hg : seqGuard.any (isA cs c) = true := by simp [seqGuard, hl]
         unfold extendChildren
-        simp only [hcn, Obj.cls, hit, if_true, keysH, hwo.2, Bool.false_eq_true, if_false]
-        by_cases hd : (clsInfo cs c).hasDict = true
-        · simp only [hd, if_true, hg, Bool.and_true, beq_self_eq_true, iterItems, ho, children]
-        · simp only [hd, Bool.false_eq_true, if_false, iterItems, ho, children]
+        simp only [hcn, Obj.cls, keysH, hnd, Bool.false_eq_true, if_false, iterItems, ho, children]
+        rcases regOK_cases hreg with hr | hr | hr <;>
+          by_cases hd : (clsInfo cs c).hasDict = true <;>
+          simp [iterH, hr, hl, hg, hd]
       | tuple c xs =>
         simp only [cellOK, Bool.and_eq_true, Bool.not_eq_true'] at hwo
-        have hit : iterH cs c = true := by simp [iterH, hwo.1.1]
-        have hg : seqGuard.any (isA cs c) = true := by simp [seqGuard, hwo.1.1]
+        obtain ⟨⟨⟨ht, hnd⟩, hnl⟩, hreg⟩ := hwo
+        have hg : seqGuard.any (isA cs c) = true := by simp [seqGuard, ht]
         unfold extendChildren
-        simp only [hcn, Obj.cls, hit, if_true, keysH, hwo.1.2, Bool.false_eq_true, if_false]
-        by_cases hd : (clsInfo cs c).hasDict = true
-        · simp only [hd, if_true, hg, Bool.and_true, beq_self_eq_true, iterItems, ho, children]
-        · simp only [hd, Bool.false_eq_true, if_false, iterItems, ho, children]
+        simp only [hcn, Obj.cls, keysH, hnd, Bool.false_eq_true, if_false, iterItems, ho, children]
+        rcases regOK_cases hreg with hr | hr | hr <;>
+          by_cases hd : (clsInfo cs c).hasDict = true <;>
+          simp [iterH, hr, ht, hg, hd]
       | set c xs =>
-        simp only [cellOK, Bool.and_eq_true, Bool.not_eq_true', Bool.or_eq_true] at hwo
-        obtain ⟨⟨⟨⟨hiter, hset⟩, hnd⟩, hnl⟩, hnt⟩ := hwo
-        have hit : iterH cs c = true := by simp [iterH, hiter]
+        simp only [cellOK, Bool.and_eq_true, Bool.not_eq_true', Bool.or_eq_true, beq_iff_eq] at hwo
+        obtain ⟨⟨⟨⟨⟨hiter, hreg⟩, hset⟩, hnd⟩, hnl⟩, hnt⟩ := hwo
+        have hit : iterH cs c = true := by simp [iterH, hiter, hreg]
         have hg : seqGuard.any (isA cs c) = true := by
           rcases hset with h1 | h1 <;> simp [seqGuard, h1]
         unfold extendChildren
@@ -104,11 +112,12 @@ theorem extendChildren_eq_children (cs : Classes) (h : Heap) (hw : heapWF cs h =
         · simp only [hd, Bool.false_eq_true, if_false, iterItems, ho, children]
       | inst c as =>
         simp only [cellOK, Bool.and_eq_true, Bool.not_eq_true', List.all_eq_true, beq_iff_eq] at hwo
-        obtain ⟨⟨⟨⟨⟨⟨hhd, hnd⟩, hnl⟩, hnt⟩, hns⟩, hnf⟩, has⟩ := hwo
+        obtain ⟨⟨⟨⟨⟨⟨⟨⟨hhd, hreg⟩, hnd⟩, hnl⟩, hnt⟩, hns⟩, hnf⟩, has⟩, _hdn⟩ := hwo
+        have hne : (((clsInfo cs c).reg) != "") = false := by rw [hreg]; decide
         have hng : seqGuard.any (isA cs c) = false := by
           simp [seqGuard, hnl, hnt, hns, hnf]
         unfold extendChildren
-        simp only [hcn, Obj.cls, keysH, hnd, Bool.false_eq_true, if_false, hhd, if_true, getH, hnl, hnt,
+        simp only [hcn, Obj.cls, keysH, hnd, Bool.false_eq_true, if_false, hhd, if_true, getH, hne, hnl, hnt,
           Bool.or_self, keysOf, ho, children, hng, Bool.and_false]
         apply filterMap_map_pairs (f := fun n => Val.str n)
         intro p hp
@@ -130,6 +139,17 @@ theorem extendChildren_eq_children (cs : Classes) (h : Heap) (hw : heapWF cs h =
   | _ =>
     rw [extendChildren_scalar cs h hc _ (fun a e => by cases e),
       children_scalar cs h _ (fun a e => by cases e)]
+
+/-- the model of `_extend_children` is the registry-parametric one at the default handlers -/
+theorem extendChildren_eq_H (cs : Classes) (h : Heap) (item : Val) :
+    extendChildren cs h item = extendChildrenH (defaultHandlers cs h) item := by
+  unfold extendChildren extendChildrenH defaultHandlers
+  simp only
+  cases hk : keysH cs (item.clsName h) with
+  | none => by_cases hi : iterH cs (item.clsName h) = true <;> simp [hi]
+  | some k =>
+    cases k <;> by_cases hi : iterH cs (item.clsName h) = true <;>
+      by_cases hg : seqGuard.any (isA cs (item.clsName h)) = true <;> simp [hi, hg]
 
 /-! ### the `'X'` loop is the breadth-first traversal -/
 
@@ -157,67 +177,73 @@ theorem drop_eq_cons_of_lt {α : Type} (l : List α) (i : Nat) (hi : i < l.lengt
       show xs.drop n = xs[n] :: xs.drop (n + 1)
       exact ih n hn
 
-theorem bfs_nil (cs : Classes) (h : Heap) (seen : List Nat) : bfs cs h [] seen = [] := by
-  rw [bfs]
+theorem bfsG_nil (n : Nat) (kids : Val → List Val) (seen : List Nat) : bfsG n kids [] seen = [] := by
+  rw [bfsG]
 
-theorem bfs_ref_seen (cs : Classes) (h : Heap) (a : Nat) (q : List Val) (seen : List Nat)
-    (hs : seen.contains a = true) : bfs cs h (.ref a :: q) seen = .ref a :: bfs cs h q seen := by
-  rw [bfs]; simp only [hs, ↓reduceDIte]
+theorem bfsG_ref_seen (n : Nat) (kids : Val → List Val) (a : Nat) (q : List Val) (seen : List Nat)
+    (hs : seen.contains a = true) : bfsG n kids (.ref a :: q) seen = .ref a :: bfsG n kids q seen := by
+  rw [bfsG]; simp only [hs, ↓reduceDIte]
 
-theorem bfs_ref_new (cs : Classes) (h : Heap) (a : Nat) (q : List Val) (seen : List Nat)
-    (hs : seen.contains a = false) (ha : a < h.length) :
-    bfs cs h (.ref a :: q) seen = .ref a :: bfs cs h (q ++ children cs h (.ref a)) (a :: seen) := by
-  rw [bfs]; simp only [hs, Bool.false_eq_true, ↓reduceDIte, ha]
+theorem bfsG_ref_new (n : Nat) (kids : Val → List Val) (a : Nat) (q : List Val) (seen : List Nat)
+    (hs : seen.contains a = false) (ha : a < n) :
+    bfsG n kids (.ref a :: q) seen = .ref a :: bfsG n kids (q ++ kids (.ref a)) (a :: seen) := by
+  rw [bfsG]; simp only [hs, Bool.false_eq_true, ↓reduceDIte, ha]
 
-theorem bfs_ref_dangling (cs : Classes) (h : Heap) (a : Nat) (q : List Val) (seen : List Nat)
-    (hs : seen.contains a = false) (ha : ¬ a < h.length) :
-    bfs cs h (.ref a :: q) seen = .ref a :: bfs cs h q seen := by
-  rw [bfs]; simp only [hs, Bool.false_eq_true, ↓reduceDIte, ha]
+theorem bfsG_ref_dangling (n : Nat) (kids : Val → List Val) (a : Nat) (q : List Val) (seen : List Nat)
+    (hs : seen.contains a = false) (ha : ¬ a < n) :
+    bfsG n kids (.ref a :: q) seen = .ref a :: bfsG n kids q seen := by
+  rw [bfsG]; simp only [hs, Bool.false_eq_true, ↓reduceDIte, ha]
 
-theorem bfs_scalar (cs : Classes) (h : Heap) (v : Val) (q : List Val) (seen : List Nat)
-    (hv : ∀ a, v ≠ .ref a) : bfs cs h (v :: q) seen = v :: bfs cs h q seen := by
+theorem bfsG_scalar (n : Nat) (kids : Val → List Val) (v : Val) (q : List Val) (seen : List Nat)
+    (hv : ∀ a, v ≠ .ref a) : bfsG n kids (v :: q) seen = v :: bfsG n kids q seen := by
   cases v with
   | ref a => exact absurd rfl (hv a)
-  | _ => rw [bfs]; intro a e; cases e
+  | _ => rw [bfsG]; intro a e; cases e
 
-/-- the index loop over the growing list computes the queue traversal: what is already walked,
-    followed by the traversal of the rest -/
-theorem ssLoop_eq_bfs (cs : Classes) (h : Heap)
-    (hag : ∀ v, extendChildren cs h v = children cs h v)
+/-- **the index loop over the growing list computes the queue traversal**, for any enumeration of
+    children: what is already walked, followed by the traversal of the rest -/
+theorem ssLoopG_eq_bfsG (n : Nat) (expand kids : Val → List Val)
+    (hag : ∀ v, expand v = kids v)
     (nxt : List Val) (i : Nat) (sofar ex : List Nat) :
-    (ssLoop cs h nxt i sofar ex).1 = nxt.take i ++ bfs cs h (nxt.drop i) sofar := by
-  fun_induction ssLoop cs h nxt i sofar ex with
+    (ssLoopG n expand nxt i sofar ex).1 = nxt.take i ++ bfsG n kids (nxt.drop i) sofar := by
+  fun_induction ssLoopG n expand nxt i sofar ex with
   | case1 nxt i sofar ex hi a hitem hs ih =>
-    rw [ih, take_succ_of_lt nxt i hi, drop_eq_cons_of_lt nxt i hi, hitem, bfs_ref_seen cs h a _ _ hs]
+    rw [ih, take_succ_of_lt nxt i hi, drop_eq_cons_of_lt nxt i hi, hitem, bfsG_ref_seen n kids a _ _ hs]
     simp
   | case2 nxt i sofar ex hi a hitem hs ha ih =>
     have hs' : sofar.contains a = false := by simpa using hs
-    rw [ih, drop_eq_cons_of_lt nxt i hi, hitem, bfs_ref_new cs h a _ _ hs' ha, hag]
-    have h1 : (nxt ++ children cs h (Val.ref a)).take (i + 1) = nxt.take i ++ [Val.ref a] := by
+    rw [ih, drop_eq_cons_of_lt nxt i hi, hitem, bfsG_ref_new n kids a _ _ hs' ha, hag]
+    have h1 : (nxt ++ kids (Val.ref a)).take (i + 1) = nxt.take i ++ [Val.ref a] := by
       rw [List.take_append_of_le_length (by omega), take_succ_of_lt nxt i hi, hitem]
-    have h2 : (nxt ++ children cs h (Val.ref a)).drop (i + 1) =
-        nxt.drop (i + 1) ++ children cs h (Val.ref a) := by
+    have h2 : (nxt ++ kids (Val.ref a)).drop (i + 1) =
+        nxt.drop (i + 1) ++ kids (Val.ref a) := by
       rw [List.drop_append_of_le_length (by omega)]
     rw [h1, h2]; simp
   | case3 nxt i sofar ex hi a hitem hs ha ih =>
     have hs' : sofar.contains a = false := by simpa using hs
     rw [ih, take_succ_of_lt nxt i hi, drop_eq_cons_of_lt nxt i hi, hitem,
-      bfs_ref_dangling cs h a _ _ hs' ha]
+      bfsG_ref_dangling n kids a _ _ hs' ha]
     simp
   | case4 nxt i sofar ex hi hnr ih =>
     have hv : ∀ a, nxt[i] ≠ Val.ref a := fun a e => hnr a e
-    rw [ih, take_succ_of_lt nxt i hi, drop_eq_cons_of_lt nxt i hi, bfs_scalar cs h _ _ _ hv,
+    rw [ih, take_succ_of_lt nxt i hi, drop_eq_cons_of_lt nxt i hi, bfsG_scalar n kids _ _ _ hv,
       List.append_assoc]
     rfl
   | case5 nxt i sofar ex hi =>
     have : nxt.length ≤ i := by omega
-    rw [List.take_of_length_le this, List.drop_eq_nil_of_le this, bfs_nil]; simp
+    rw [List.take_of_length_le this, List.drop_eq_nil_of_le this, bfsG_nil]; simp
+
+theorem ssLoop_eq_bfs (cs : Classes) (h : Heap)
+    (hag : ∀ v, extendChildren cs h v = children cs h v)
+    (nxt : List Val) (i : Nat) (sofar ex : List Nat) :
+    (ssLoop cs h nxt i sofar ex).1 = nxt.take i ++ bfs cs h (nxt.drop i) sofar :=
+  ssLoopG_eq_bfsG h.length _ _ hag nxt i sofar ex
 
 /-! ### each container is expanded once; what the final list consists of -/
 
-theorem ssLoop_nodup (cs : Classes) (h : Heap) (nxt : List Val) (i : Nat) (sofar ex : List Nat) :
-    (∀ x ∈ ex, sofar.contains x = true) → ex.Nodup → (ssLoop cs h nxt i sofar ex).2.Nodup := by
-  fun_induction ssLoop cs h nxt i sofar ex with
+theorem ssLoopG_nodup (n : Nat) (expand : Val → List Val) (nxt : List Val) (i : Nat) (sofar ex : List Nat) :
+    (∀ x ∈ ex, sofar.contains x = true) → ex.Nodup → (ssLoopG n expand nxt i sofar ex).2.Nodup := by
+  fun_induction ssLoopG n expand nxt i sofar ex with
   | case1 nxt i sofar ex hi a hitem hs ih => exact ih
   | case2 nxt i sofar ex hi a hitem hs ha ih =>
     intro hsub hnd
@@ -236,13 +262,18 @@ theorem ssLoop_nodup (cs : Classes) (h : Heap) (nxt : List Val) (i : Nat) (sofar
   | case4 nxt i sofar ex hi hnr ih => exact ih
   | case5 nxt i sofar ex hi => intro _ hnd; exact hnd
 
+theorem ssLoop_nodup (cs : Classes) (h : Heap) (nxt : List Val) (i : Nat) (sofar ex : List Nat) :
+    (∀ x ∈ ex, sofar.contains x = true) → ex.Nodup → (ssLoop cs h nxt i sofar ex).2.Nodup :=
+  ssLoopG_nodup h.length _ nxt i sofar ex
+
 /-- the final `nxt` is the initial one followed by the children of every container expanded by
-    the loop, in expansion order; every expansion is of a heap address not expanded before -/
-theorem ssLoop_structure (cs : Classes) (h : Heap) (nxt : List Val) (i : Nat) (sofar ex : List Nat) :
-    ∃ news : List Nat, (ssLoop cs h nxt i sofar ex).2 = ex ++ news ∧
-      (ssLoop cs h nxt i sofar ex).1 = nxt ++ news.flatMap (fun a => extendChildren cs h (.ref a)) ∧
-      ∀ a ∈ news, a < h.length ∧ sofar.contains a = false := by
-  fun_induction ssLoop cs h nxt i sofar ex with
+    the loop, in expansion order; every expansion is of an address not expanded before -/
+theorem ssLoopG_structure (n : Nat) (expand : Val → List Val) (nxt : List Val) (i : Nat)
+    (sofar ex : List Nat) :
+    ∃ news : List Nat, (ssLoopG n expand nxt i sofar ex).2 = ex ++ news ∧
+      (ssLoopG n expand nxt i sofar ex).1 = nxt ++ news.flatMap (fun a => expand (.ref a)) ∧
+      ∀ a ∈ news, a < n ∧ sofar.contains a = false := by
+  fun_induction ssLoopG n expand nxt i sofar ex with
   | case1 nxt i sofar ex hi a hitem hs ih => exact ih
   | case2 nxt i sofar ex hi a hitem hs ha ih =>
     obtain ⟨news, h1, h2, h3⟩ := ih
@@ -258,6 +289,27 @@ theorem ssLoop_structure (cs : Classes) (h : Heap) (nxt : List Val) (i : Nat) (s
   | case3 nxt i sofar ex hi a hitem hs ha ih => exact ih
   | case4 nxt i sofar ex hi hnr ih => exact ih
   | case5 nxt i sofar ex hi => exact ⟨[], by simp, by simp, by simp⟩
+
+/-- at most one expansion per address, whatever is enumerated -/
+theorem ssLoopG_bound (n : Nat) (expand : Val → List Val) (nxt : List Val) (seed : List Nat)
+    (hs1 : seed.Nodup) :
+    (ssLoopG n expand nxt 0 seed seed).2.Nodup ∧
+    (ssLoopG n expand nxt 0 seed seed).2.length ≤ n + seed.length := by
+  have hnd := ssLoopG_nodup n expand nxt 0 seed seed (by intro x hx; simp [hx]) hs1
+  refine ⟨hnd, ?_⟩
+  obtain ⟨news, h1, _, h3⟩ := ssLoopG_structure n expand nxt 0 seed seed
+  rw [h1] at hnd ⊢
+  have hn : news.Nodup := (List.nodup_append.1 hnd).2.1
+  have hsub : news ⊆ List.range n := fun a ha => List.mem_range.2 (h3 a ha).1
+  have := hn.length_le_of_subset hsub
+  simp only [List.length_append, List.length_range] at this ⊢
+  omega
+
+theorem ssLoop_structure (cs : Classes) (h : Heap) (nxt : List Val) (i : Nat) (sofar ex : List Nat) :
+    ∃ news : List Nat, (ssLoop cs h nxt i sofar ex).2 = ex ++ news ∧
+      (ssLoop cs h nxt i sofar ex).1 = nxt ++ news.flatMap (fun a => extendChildren cs h (.ref a)) ∧
+      ∀ a ∈ news, a < h.length ∧ sofar.contains a = false :=
+  ssLoopG_structure h.length _ nxt i sofar ex
 
 /-! ### evaluation of paths with wildcards -/
 
@@ -494,5 +546,873 @@ theorem Res.beqList_refl : ∀ xs : List Res, Res.beqList xs xs = true
   | [] => by simp [Res.beqList]
   | x :: xs => by simp [Res.beqList, Res.beq_refl x, Res.beqList_refl xs]
 end
+
+/-! ## evaluation with state (method calls after wildcards, identity of the result's lists) -/
+
+theorem pyKeyEq_eucl (f e k : Val) (h1 : pyKeyEq f e = true) (h2 : pyKeyEq f k = true) :
+    pyKeyEq e k = true := by
+  cases f <;> cases e <;> simp [pyKeyEq] at h1 <;> cases k <;> simp [pyKeyEq] at h2 ⊢ <;>
+    first
+    | (subst h1; subst h2; rfl)
+    | (subst h1; exact h2)
+    | (subst h2; exact h1)
+    | (rename_i a b c; cases a <;> cases b <;> cases c <;> simp_all)
+    | (rename_i a b c; cases a <;> cases b <;> simp_all)
+    | (rename_i a b c; cases a <;> simp_all <;> omega)
+    | simp_all
+    | omega
+
+def sameKind : Obj → Obj → Bool
+  | .list _ _, .list _ _ => true
+  | .tuple _ _, .tuple _ _ => true
+  | .dict _ _, .dict _ _ => true
+  | .set _ _, .set _ _ => true
+  | .inst _ _, .inst _ _ => true
+  | _, _ => false
+
+theorem hashable_set {h : Heap} {a : Nat} {o o' : Obj} (ho : h[a]? = some o)
+    (hk : sameKind o o' = true) (v : Val) : v.hashable (h.set a o') = v.hashable h := by
+  cases v with
+  | ref b =>
+    simp only [Val.hashable, List.getElem?_set]
+    by_cases hab : a = b
+    · subst hab
+      have hl : a < h.length := by
+        rcases Nat.lt_or_ge a h.length with h1 | h1
+        · exact h1
+        · rw [List.getElem?_eq_none h1] at ho; cases ho
+      simp only [if_true, hl, ho]
+      cases o <;> cases o' <;> simp_all [sameKind]
+    · simp [hab]
+  | _ => rfl
+
+theorem cellOK_congr {cs : Classes} {h h' : Heap} (hh : ∀ v : Val, v.hashable h' = v.hashable h) (o : Obj) :
+    cellOK cs h' o = cellOK cs h o := by
+  cases o <;> simp [cellOK, hh]
+
+theorem heapWF_set {cs : Classes} {h : Heap} {a : Nat} {o o' : Obj} (hw : heapWF cs h = true)
+    (ho : h[a]? = some o) (hk : sameKind o o' = true) (hok : cellOK cs h o' = true) :
+    heapWF cs (h.set a o') = true := by
+  unfold heapWF at *
+  rw [List.all_eq_true] at *
+  intro x hx
+  rw [cellOK_congr (hashable_set ho hk)]
+  rcases List.mem_or_eq_of_mem_set hx with h1 | h1
+  · exact hw x h1
+  · rw [h1]; exact hok
+
+
+/-- removing a key from a well-formed dict cell leaves a well-formed dict cell -/
+theorem cellOK_dict_filter {cs : Classes} {h : Heap} {c : String} {es : List (Val × Val)} (k : Val)
+    (hok : cellOK cs h (.dict c es) = true) :
+    cellOK cs h (.dict c (es.filter (fun e => !(pyKeyEq e.1 k)))) = true := by
+  simp only [cellOK, Bool.and_eq_true, List.all_eq_true, beq_iff_eq] at hok ⊢
+  refine ⟨hok.1, ?_⟩
+  intro e he
+  rw [List.mem_filter] at he
+  obtain ⟨hmem, hne⟩ := he
+  obtain ⟨hh, hl⟩ := hok.2 e hmem
+  refine ⟨hh, ?_⟩
+  unfold dictLookup at hl ⊢
+  rw [List.find?_filter]
+  have : (fun a : Val × Val => decide ((!pyKeyEq a.1 k) = true ∧ pyKeyEq a.1 e.1 = true)) =
+      (fun a => pyKeyEq a.1 e.1) := by
+    funext a
+    by_cases h1 : pyKeyEq a.1 e.1 = true
+    · by_cases h2 : pyKeyEq a.1 k = true
+      · have := pyKeyEq_eucl a.1 e.1 k h1 h2
+        simp [this] at hne
+      · simp [h1, h2]
+    · simp [h1]
+  rw [this]; exact hl
+
+theorem any_setAssoc (n m : String) (v : Val) : ∀ r : List (String × Val),
+    (setAssoc n v r).any (fun p => p.1 == m) = (r.any (fun p => p.1 == m) || (n == m)) := by
+  intro r
+  induction r with
+  | nil => simp [setAssoc]
+  | cons q r ih =>
+    obtain ⟨k', v'⟩ := q
+    by_cases hk : (k' == n) = true
+    · have : k' = n := by simpa using hk
+      subst this
+      simp only [setAssoc, hk, if_true, List.any_cons]
+      cases (k' == m) <;> cases (r.any fun p => p.1 == m) <;> rfl
+    · simp only [setAssoc, hk, Bool.false_eq_true, if_false, List.any_cons, ih]
+      cases (k' == m) <;> cases (r.any fun p => p.1 == m) <;> cases (n == m) <;> rfl
+
+theorem distinct_setAssoc (n : String) (v : Val) : ∀ r : List (String × Val),
+    distinctNames r = true → distinctNames (setAssoc n v r) = true := by
+  intro r
+  induction r with
+  | nil => intro _; simp [setAssoc, distinctNames]
+  | cons q r ih =>
+    obtain ⟨k', v'⟩ := q
+    intro hd
+    simp only [distinctNames, Bool.and_eq_true, Bool.not_eq_true'] at hd
+    by_cases hk : (k' == n) = true
+    · simp only [setAssoc, hk, if_true, distinctNames, Bool.and_eq_true, Bool.not_eq_true']
+      exact hd
+    · simp only [setAssoc, hk, Bool.false_eq_true, if_false, distinctNames, Bool.and_eq_true,
+        Bool.not_eq_true', any_setAssoc]
+      refine ⟨?_, ih hd.2⟩
+      have : (n == k') = false := by
+        cases hnk : (n == k')
+        · rfl
+        · have e : n = k' := by simpa using hnk
+          subst e; simp at hk
+      simp [hd.1, this]
+
+theorem distinct_find : ∀ (as : List (String × Val)), distinctNames as = true → ∀ p ∈ as,
+    as.find? (fun q => q.1 == p.1) = some p := by
+  intro as
+  induction as with
+  | nil => intro _ p hp; cases hp
+  | cons q r ih =>
+    intro hd p hp
+    simp only [distinctNames, Bool.and_eq_true, Bool.not_eq_true'] at hd
+    rcases List.mem_cons.1 hp with h1 | h1
+    · subst h1; simp
+    · have hne : (q.1 == p.1) = false := by
+        cases hq : (q.1 == p.1)
+        · rfl
+        · have e : q.1 = p.1 := by simpa using hq
+          have : r.any (fun x => x.1 == q.1) = true := by
+            rw [List.any_eq_true]; exact ⟨p, h1, by simp [e]⟩
+          rw [this] at hd; cases hd.1
+      simp only [List.find?_cons, hne]
+      exact ih hd.2 p h1
+
+/-- setting an attribute of a well-formed instance cell leaves a well-formed instance cell -/
+theorem cellOK_inst_setAssoc {cs : Classes} {h : Heap} {c : String} {as : List (String × Val)}
+    (n : String) (v : Val) (hok : cellOK cs h (.inst c as) = true) :
+    cellOK cs h (.inst c (setAssoc n v as)) = true := by
+  simp only [cellOK, Bool.and_eq_true, List.all_eq_true, beq_iff_eq] at hok ⊢
+  obtain ⟨⟨hcls, _⟩, hd⟩ := hok
+  have hd' := distinct_setAssoc n v as hd
+  refine ⟨⟨hcls, ?_⟩, hd'⟩
+  intro p hp
+  rw [distinct_find _ hd' p hp]; rfl
+
+
+theorem itNext_ok {h : Heap} {attrs attrs' : List (String × Val)} {v : Val}
+    (hit : itNext h attrs = some (.ok (attrs', v))) : ∃ w, attrs' = setAssoc "pos" w attrs := by
+  unfold itNext at hit
+  split at hit
+  · split at hit
+    · cases hit
+    · split at hit
+      · split at hit
+        · injection hit with e; injection e with e; injection e with e3 e4
+          exact ⟨_, e3.symm⟩
+        · cases hit
+      · split at hit
+        · injection hit with e; injection e with e; injection e with e3 e4
+          exact ⟨_, e3.symm⟩
+        · cases hit
+      · cases hit
+  · cases hit
+
+theorem failMethod_not_ret (cs : Classes) (h h' : Heap) (recv : Val) (args : List Val) (v : Val) :
+    failMethod cs h recv args ≠ .ret h' v := by
+  unfold failMethod
+  intro hc
+  cases recv with
+  | ref a =>
+    simp only at hc
+    cases ho : h[a]? with
+    | none => rw [ho] at hc; cases hc
+    | some o =>
+      rw [ho] at hc
+      simp only at hc
+      split at hc
+      · split at hc <;> cases hc
+      · cases o <;> simp only at hc <;> first | cases hc | (split at hc <;> cases hc)
+  | _ => simp at hc
+
+/-- **a modelled method call leaves a well-formed heap well-formed** -/
+theorem callMethod_wf {cs : Classes} {h h' : Heap} {recv : Val} {name : String} {args : List Val} {v : Val}
+    (hw : heapWF cs h = true) (hc : callMethod cs h recv name args = .ret h' v) : heapWF cs h' = true := by
+  unfold callMethod at hc
+  split at hc
+  · cases hc
+  · split at hc
+    · exact absurd hc (failMethod_not_ret cs h h' recv args v)
+    · cases recv with
+    | ref a =>
+      simp only at hc
+      cases ho : h[a]? with
+      | none => rw [ho] at hc; cases hc
+      | some o =>
+        rw [ho] at hc
+        have hcell := heapWF_get hw ho
+        cases o with
+        | list c xs =>
+          simp only at hc
+          split at hc
+          · split at hc
+            · injection hc with e1 e2; subst e1
+              exact heapWF_set hw ho rfl hcell
+            · cases hc
+          · split at hc
+            · split at hc
+              · injection hc with e1 e2; subst e1
+                exact heapWF_set hw ho rfl hcell
+              · cases hc
+            · cases hc
+        | dict c es =>
+          simp only at hc
+          split at hc
+          · rename_i hpop
+            split at hc
+            · rename_i es' v' hdp
+              injection hc with e1 e2; subst e1
+              refine heapWF_set hw ho rfl ?_
+              -- what `dictPop` leaves is the cell itself or the cell without the key
+              unfold dictPop at hdp
+              split at hdp
+              · split at hdp
+                · cases hdp
+                · split at hdp
+                  · injection hdp with e; injection e with e3 e4; subst e3
+                    exact cellOK_dict_filter _ hcell
+                  · cases hdp
+              · split at hdp
+                · cases hdp
+                · split at hdp
+                  · injection hdp with e; injection e with e3 e4; subst e3
+                    exact cellOK_dict_filter _ hcell
+                  · injection hdp with e; injection e with e3 e4; subst e3
+                    exact hcell
+              · cases hdp
+            · cases hc
+          · cases hc
+        | tuple c xs => cases hc
+        | set c xs => simp only at hc; split at hc <;> cases hc
+        | inst c attrs =>
+          simp only at hc
+          split at hc
+          · cases hc
+          · split at hc
+            · split at hc
+              · split at hc
+                · rename_i attrs' v' hit
+                  injection hc with e1 e2; subst e1
+                  refine heapWF_set hw ho rfl ?_
+                  obtain ⟨w, hw'⟩ := itNext_ok hit
+                  subst hw'
+                  exact cellOK_inst_setAssoc _ _ hcell
+                · cases hc
+                · cases hc
+              · cases hc
+            · cases hc
+    | _ => simp at hc
+
+theorem callStep_wf {cs : Classes} {s : St} {cur : Val} {name : String} {args : List Val}
+    (hw : heapWF cs s.heap = true) : heapWF cs (callStep cs s cur name args).1.heap = true := by
+  unfold callStep
+  cases hc : callMethod cs s.heap cur name args with
+  | noAttr => exact hw
+  | unmodelled => exact hw
+  | raised c =>
+    simp only [St.log]
+    cases cur <;> simp only <;> try exact hw
+    split <;> exact hw
+  | ret h' v => exact callMethod_wf hw hc
+
+
+/-! ### the loop over the entries = the walk over the matched positions -/
+
+theorem foldl_stepPos_err (f : Val → St → St × Except EErr LRes) (l : List Val) (s : St)
+    (out : List LRes) (e : EErr) :
+    l.foldl (stepPos f) { st := s, out := out, err := some e } = { st := s, out := out, err := some e } := by
+  induction l with
+  | nil => rfl
+  | cons c l ih => simp only [List.foldl_cons, stepPos]; exact ih
+
+/-- what a finished walk amounts to -/
+def accResult (acc : Acc) : St × Except EErr (List LRes) :=
+  (acc.st, match acc.err with | none => .ok acc.out | some e => .error e)
+
+theorem collectS_eq_fold (f : Val → St → St × Except EErr LRes) : ∀ (l : List Val) (s : St) (pre : List LRes),
+    accResult (l.foldl (stepPos f) { st := s, out := pre, err := none }) =
+      (match collectS f l s with
+       | (s', .ok rs) => (s', .ok (pre ++ rs))
+       | (s', .error e) => (s', .error e)) := by
+  intro l
+  induction l with
+  | nil => intro s pre; simp [collectS, accResult]
+  | cons c l ih =>
+    intro s pre
+    simp only [List.foldl_cons, collectS]
+    rcases hf : f c s with ⟨s1, r⟩
+    cases r with
+    | ok r =>
+      simp only [stepPos, hf]
+      rw [ih s1 (pre ++ [r])]
+      rcases collectS f l s1 with ⟨s2, rs⟩
+      cases rs <;> simp
+    | error e =>
+      cases e with
+      | pae x => simp only [stepPos, hf]; exact ih s1 pre
+      | other c' => simp only [stepPos, hf]; rw [foldl_stepPos_err]; simp [accResult]
+
+/-- the wildcard branch (new list, loop with `try`, `break`) is the walk over the positions -/
+theorem wildS_eq_refWild (f : Val → St → St × Except EErr LRes) (nxt : List Val) (s : St) :
+    wildS f nxt s = refWild f nxt s := by
+  unfold wildS refWild refPositions
+  have := collectS_eq_fold f nxt { s with next := s.next + 1 } []
+  simp only [accResult, List.nil_append] at this
+  generalize List.foldl (stepPos f) _ nxt = acc at this ⊢
+  generalize collectS f nxt { s with next := s.next + 1 } = col at this ⊢
+  obtain ⟨s2, rs⟩ := col
+  obtain ⟨st, out, err⟩ := acc
+  cases err <;> cases rs <;> simp_all
+
+theorem collectS_congr (Inv : St → Prop) (f g : Val → St → St × Except EErr LRes)
+    (hfg : ∀ c s, Inv s → f c s = g c s ∧ Inv (f c s).1) :
+    ∀ (l : List Val) (s : St), Inv s → collectS f l s = collectS g l s ∧ Inv (collectS f l s).1 := by
+  intro l
+  induction l with
+  | nil => intro s hs; exact ⟨rfl, hs⟩
+  | cons c l ih =>
+    intro s hs
+    obtain ⟨h1, h2⟩ := hfg c s hs
+    simp only [collectS]
+    rw [← h1]
+    rcases hf : f c s with ⟨s1, r⟩
+    rw [hf] at h2
+    obtain ⟨h3, h4⟩ := ih s1 h2
+    cases r with
+    | ok r =>
+      simp only
+      rw [← h3]
+      rcases hcl : collectS f l s1 with ⟨s2, rs⟩
+      rw [hcl] at h4
+      cases rs <;> exact ⟨rfl, h4⟩
+    | error e =>
+      cases e with
+      | pae x => exact ⟨h3, h4⟩
+      | other c' => exact ⟨rfl, h2⟩
+
+theorem wildS_congr (Inv : St → Prop) (f g : Val → St → St × Except EErr LRes)
+    (hfg : ∀ c s, Inv s → f c s = g c s ∧ Inv (f c s).1)
+    (hnext : ∀ s : St, Inv s → Inv { s with next := s.next + 1 })
+    (l : List Val) (s : St) (hs : Inv s) : wildS f l s = wildS g l s ∧ Inv (wildS f l s).1 := by
+  unfold wildS
+  obtain ⟨h1, h2⟩ := collectS_congr Inv f g hfg l _ (hnext s hs)
+  rw [← h1]
+  rcases hcl : collectS f l { s with next := s.next + 1 } with ⟨s2, rs⟩
+  rw [hcl] at h2
+  cases rs <;> exact ⟨rfl, h2⟩
+
+/-- **refinement, with effects**: on every well-formed heap the model's `_t_eval` computes the
+    reference evaluation (once per matched position, on the evolving state), and leaves a well-formed
+    heap -/
+theorem evalS_eq_refEvalS (cs : Classes) (hc : classesWF cs = true) (steps : List Step) :
+    ∀ (cur : Val) (s : St), heapWF cs s.heap = true →
+      evalS cs steps cur s = refEvalS cs steps cur s ∧ heapWF cs (evalS cs steps cur s).1.heap = true := by
+  induction steps with
+  | nil => intro cur s hs; exact ⟨rfl, hs⟩
+  | cons st rest ih =>
+    intro cur s hs
+    cases st with
+    | star =>
+      simp only [evalS, refEvalS]
+      rw [← wildS_eq_refWild]
+      have hst : starItems cs s.heap cur = children cs s.heap cur :=
+        extendChildren_eq_children cs s.heap hs hc cur
+      rw [← hst]
+      exact wildS_congr (fun s => heapWF cs s.heap = true) _ _ (fun c s hs => ih c s hs) (fun _ h => h) _ s hs
+    | starstar =>
+      simp only [evalS, refEvalS]
+      rw [← wildS_eq_refWild]
+      have hd : (starstarItems cs s.heap cur).1 = descend cs s.heap cur := by
+        unfold starstarItems descend
+        simp only
+        rw [ssLoop_eq_bfs cs s.heap (extendChildren_eq_children cs s.heap hs hc),
+          extendChildren_eq_children cs s.heap hs hc]
+        simp only [List.take_zero, List.drop_zero, List.nil_append]
+        cases cur <;> rfl
+      rw [← hd]
+      exact wildS_congr (fun s => heapWF cs s.heap = true) _ _ (fun c s hs => ih c s hs) (fun _ h => h) _ s hs
+    | acc op arg =>
+      simp only [evalS, refEvalS]
+      rw [accessStep_eq]
+      cases refAccess cs s.heap op cur arg with
+      | none => exact ⟨rfl, hs⟩
+      | some r =>
+        cases r with
+        | ok v => exact ih v s hs
+        | error e => exact ⟨rfl, hs⟩
+    | call name args =>
+      simp only [evalS, refEvalS]
+      have hw := callStep_wf (cs := cs) (cur := cur) (name := name) (args := args) hs
+      rcases hcs : callStep cs s cur name args with ⟨s', r⟩
+      rw [hcs] at hw
+      cases r with
+      | ok v => exact ih v s' hw
+      | error e => exact ⟨rfl, hw⟩
+
+
+/-! ### every list cell of a result is a new object -/
+
+/-- `f` only creates lists numbered from the counter it is given, each once, and returns the counter
+    behind the last one -/
+def FreshFn (f : Val → St → St × Except EErr LRes) : Prop :=
+  ∀ c s, s.next ≤ (f c s).1.next ∧
+    ∀ r, (f c s).2 = .ok r → r.labels.Nodup ∧ ∀ l ∈ r.labels, s.next ≤ l ∧ l < (f c s).1.next
+
+theorem collectS_fresh (f : Val → St → St × Except EErr LRes) (hf : FreshFn f) :
+    ∀ (l : List Val) (s : St), s.next ≤ (collectS f l s).1.next ∧
+      ∀ rs, (collectS f l s).2 = .ok rs → (LRes.labelsList rs).Nodup ∧
+        ∀ x ∈ LRes.labelsList rs, s.next ≤ x ∧ x < (collectS f l s).1.next := by
+  intro l
+  induction l with
+  | nil =>
+    intro s
+    refine ⟨Nat.le_refl _, ?_⟩
+    intro rs hrs
+    simp only [collectS, Except.ok.injEq] at hrs
+    subst hrs
+    simp [LRes.labelsList]
+  | cons c l ih =>
+    intro s
+    obtain ⟨h1, h2⟩ := hf c s
+    simp only [collectS]
+    rcases hfc : f c s with ⟨s1, r⟩
+    rw [hfc] at h1 h2
+    simp only at h1 h2
+    obtain ⟨h3, h4⟩ := ih s1
+    cases r with
+    | ok r =>
+      simp only
+      rcases hcl : collectS f l s1 with ⟨s2, rs⟩
+      rw [hcl] at h3 h4
+      simp only at h3 h4
+      cases rs with
+      | error e => exact ⟨by simp only; omega, by intro rs hrs; cases hrs⟩
+      | ok rs =>
+        refine ⟨by simp only; omega, ?_⟩
+        intro rs' hrs'
+        simp only [Except.ok.injEq] at hrs'
+        subst hrs'
+        obtain ⟨g1, g2⟩ := h2 r rfl
+        obtain ⟨g3, g4⟩ := h4 rs rfl
+        simp only [LRes.labelsList]
+        refine ⟨List.nodup_append.2 ⟨g1, g3, ?_⟩, ?_⟩
+        · intro a ha b hb e
+          subst e
+          have := (g2 a ha).2
+          have := (g4 a hb).1
+          omega
+        · intro x hx
+          rcases List.mem_append.1 hx with hx | hx
+          · have := g2 x hx; exact ⟨this.1, by omega⟩
+          · have := g4 x hx; exact ⟨by omega, this.2⟩
+    | error e =>
+      cases e with
+      | pae x =>
+        simp only
+        refine ⟨by omega, ?_⟩
+        intro rs hrs
+        obtain ⟨g3, g4⟩ := h4 rs hrs
+        exact ⟨g3, fun x hx => ⟨by have := (g4 x hx).1; omega, (g4 x hx).2⟩⟩
+      | other c' => exact ⟨h1, by intro rs hrs; cases hrs⟩
+
+theorem wildS_fresh (f : Val → St → St × Except EErr LRes) (hf : FreshFn f) (l : List Val) (s : St) :
+    s.next ≤ (wildS f l s).1.next ∧
+      ∀ r, (wildS f l s).2 = .ok r → r.labels.Nodup ∧ ∀ x ∈ r.labels, s.next ≤ x ∧ x < (wildS f l s).1.next := by
+  unfold wildS
+  obtain ⟨h1, h2⟩ := collectS_fresh f hf l { s with next := s.next + 1 }
+  rcases hcl : collectS f l { s with next := s.next + 1 } with ⟨s2, rs⟩
+  rw [hcl] at h1 h2
+  simp only at h1 h2
+  cases rs with
+  | error e => exact ⟨by simp only; omega, by intro r hr; cases hr⟩
+  | ok rs =>
+    refine ⟨by simp only; omega, ?_⟩
+    intro r hr
+    simp only [Except.ok.injEq] at hr
+    subst hr
+    obtain ⟨g1, g2⟩ := h2 rs rfl
+    simp only [LRes.labels]
+    refine ⟨List.nodup_cons.2 ⟨?_, g1⟩, ?_⟩
+    · intro hm; have := (g2 _ hm).1; omega
+    · intro x hx
+      rcases List.mem_cons.1 hx with hx | hx
+      · subst hx; exact ⟨Nat.le_refl _, by omega⟩
+      · have := g2 x hx; exact ⟨by omega, this.2⟩
+
+theorem callStep_next (cs : Classes) (s : St) (cur : Val) (name : String) (args : List Val) :
+    (callStep cs s cur name args).1.next = s.next := by
+  unfold callStep
+  cases callMethod cs s.heap cur name args <;> simp only [St.log] <;> cases cur <;> simp only <;>
+    first | rfl | (split <;> rfl)
+
+theorem evalS_fresh (cs : Classes) (steps : List Step) : FreshFn (evalS cs steps) := by
+  induction steps with
+  | nil =>
+    intro cur s
+    refine ⟨Nat.le_refl _, ?_⟩
+    intro r hr
+    simp only [evalS, Except.ok.injEq] at hr
+    subst hr
+    simp [LRes.labels]
+  | cons st rest ih =>
+    intro cur s
+    cases st with
+    | star => simp only [evalS]; exact wildS_fresh _ ih _ s
+    | starstar => simp only [evalS]; exact wildS_fresh _ ih _ s
+    | acc op arg =>
+      simp only [evalS]
+      cases accessStep cs s.heap op cur arg with
+      | ok v => exact ih v s
+      | error e => exact ⟨Nat.le_refl _, by intro r hr; cases hr⟩
+    | call name args =>
+      simp only [evalS]
+      have hn := callStep_next cs s cur name args
+      rcases hcs : callStep cs s cur name args with ⟨s', r⟩
+      rw [hcs] at hn
+      simp only at hn
+      cases r with
+      | ok v =>
+        have := ih v s'
+        rw [hn] at this
+        exact this
+      | error e => exact ⟨by simp only; omega, by intro r hr; cases hr⟩
+
+
+/-! ### paths without calls: the state is untouched and the result is `evalSteps`' -/
+
+theorem LRes.eraseList_eq_map (xs : List LRes) : LRes.eraseList xs = xs.map LRes.erase := by
+  induction xs with
+  | nil => rfl
+  | cons x xs ih => simp [LRes.eraseList, ih]
+
+/-- `f` leaves heap and call log alone on the heap `h` and computes `g` up to the identities -/
+def PureFn (h : Heap) (f : Val → St → St × Except EErr LRes) (g : Val → Except EErr Res) : Prop :=
+  ∀ c s, s.heap = h → (f c s).1.heap = h ∧ (f c s).1.calls = s.calls ∧ eraseE (f c s).2 = g c
+
+theorem collectS_pure (h : Heap) (f : Val → St → St × Except EErr LRes) (g : Val → Except EErr Res)
+    (hf : PureFn h f g) : ∀ (l : List Val) (s : St), s.heap = h →
+      (collectS f l s).1.heap = h ∧ (collectS f l s).1.calls = s.calls ∧
+      (match (collectS f l s).2 with
+       | .ok rs => .ok (LRes.eraseList rs)
+       | .error e => .error e) = collect (l.map g) := by
+  intro l
+  induction l with
+  | nil => intro s hs; exact ⟨hs, rfl, rfl⟩
+  | cons c l ih =>
+    intro s hs
+    obtain ⟨h1, h2, h3⟩ := hf c s hs
+    simp only [collectS, List.map_cons]
+    rw [← h3]
+    rcases hfc : f c s with ⟨s1, r⟩
+    rw [hfc] at h1 h2
+    simp only at h1 h2
+    obtain ⟨g1, g2, g3⟩ := ih s1 h1
+    cases r with
+    | ok r =>
+      simp only [eraseE, collect]
+      rw [← g3]
+      rcases hcl : collectS f l s1 with ⟨s2, rs⟩
+      rw [hcl] at g1 g2
+      simp only at g1 g2
+      cases rs with
+      | ok rs => exact ⟨g1, by rw [g2, h2], by simp [Except.map, LRes.eraseList]⟩
+      | error e => exact ⟨g1, by rw [g2, h2], by simp [Except.map]⟩
+    | error e =>
+      cases e with
+      | pae x => simp only [eraseE, collect]; exact ⟨g1, by rw [g2, h2], g3⟩
+      | other c' => simp only [eraseE, collect]; exact ⟨h1, h2, trivial⟩
+
+theorem wildS_pure (h : Heap) (f : Val → St → St × Except EErr LRes) (g : Val → Except EErr Res)
+    (hf : PureFn h f g) (l : List Val) (s : St) (hs : s.heap = h) :
+    (wildS f l s).1.heap = h ∧ (wildS f l s).1.calls = s.calls ∧
+      eraseE (wildS f l s).2 = (collect (l.map g)).map Res.list := by
+  unfold wildS
+  obtain ⟨g1, g2, g3⟩ := collectS_pure h f g hf l { s with next := s.next + 1 } hs
+  rw [← g3]
+  rcases hcl : collectS f l { s with next := s.next + 1 } with ⟨s2, rs⟩
+  rw [hcl] at g1 g2
+  simp only at g1 g2
+  cases rs with
+  | ok rs => exact ⟨g1, g2, by simp [eraseE, Except.map, LRes.erase]⟩
+  | error e => exact ⟨g1, g2, by simp [eraseE, Except.map]⟩
+
+/-- **conservative extension**: on a path without calls the evaluation with state leaves the target
+    and the call log alone and yields the value `evalSteps` yields -/
+theorem evalS_pure (cs : Classes) (steps : List (String × Val)) :
+    ∀ (cur : Val) (s : St), (evalS cs (steps.map Step.ofPair) cur s).1.heap = s.heap ∧
+      (evalS cs (steps.map Step.ofPair) cur s).1.calls = s.calls ∧
+      eraseE (evalS cs (steps.map Step.ofPair) cur s).2 = evalSteps cs s.heap steps cur := by
+  induction steps with
+  | nil => intro cur s; exact ⟨rfl, rfl, rfl⟩
+  | cons st rest ih =>
+    obtain ⟨op, arg⟩ := st
+    intro cur s
+    have hp : PureFn s.heap (evalS cs (rest.map Step.ofPair)) (evalSteps cs s.heap rest) := by
+      intro c s' hs'
+      have := ih c s'
+      rw [hs'] at this
+      exact this
+    by_cases hx : (op == "x") = true
+    · simp only [List.map_cons, Step.ofPair, hx, if_true, evalS, evalSteps]
+      exact wildS_pure s.heap _ _ hp _ s rfl
+    · by_cases hX : (op == "X") = true
+      · simp only [List.map_cons, Step.ofPair, hx, hX, if_true, Bool.false_eq_true, if_false, evalS, evalSteps]
+        exact wildS_pure s.heap _ _ hp _ s rfl
+      · simp only [List.map_cons, Step.ofPair, hx, hX, Bool.false_eq_true, if_false, evalS, evalSteps]
+        cases accessStep cs s.heap op cur arg with
+        | ok v => exact ih v s
+        | error e => exact ⟨rfl, rfl, rfl⟩
+
+
+/-! ### one object at `n` positions: `n` evaluations -/
+
+theorem set_same {h : Heap} {q : Nat} {o : Obj} (ho : h[q]? = some o) : h.set q o = h := by
+  apply List.ext_getElem?
+  intro i
+  rw [List.getElem?_set]
+  by_cases hqi : q = i
+  · subst hqi
+    have hl : q < h.length := by
+      rcases Nat.lt_or_ge q h.length with h1 | h1
+      · exact h1
+      · rw [List.getElem?_eq_none h1] at ho; cases ho
+    simp only [if_true, hl, ho]
+  · simp [hqi]
+
+theorem get_set_self {h : Heap} {q : Nat} {o o' : Obj} (ho : h[q]? = some o) :
+    (h.set q o')[q]? = some o' := by
+  have hl : q < h.length := by
+    rcases Nat.lt_or_ge q h.length with h1 | h1
+    · exact h1
+    · rw [List.getElem?_eq_none h1] at ho; cases ho
+  rw [List.getElem?_set]; simp [hl]
+
+theorem logN_succ (c : String) (q : Nat) (name : String) (n : Nat) :
+    logN c q name (n + 1) = (if logged c then [(q, name)] else []) ++ logN c q name n := by
+  unfold logN
+  cases logged c <;> simp [List.replicate_succ]
+
+theorem append_step (cs : Classes) (s : St) (q : Nat) (c : String) (xs : List Val) (v : Val)
+    (hq : s.heap[q]? = some (.list c xs)) :
+    evalS cs [.call "append" [v]] (.ref q) s =
+      ({ heap := s.heap.set q (.list c (xs ++ [v])), next := s.next,
+         calls := s.calls ++ (if logged c then [(q, "append")] else []) }, .ok (.val .none)) := by
+  have hcn : (Val.ref q).clsName s.heap = c := by simp [Val.clsName, hq, Obj.cls]
+  simp only [evalS, callStep, callMethod, hq, St.log, hcn]
+  cases logged c <;> simp
+
+theorem collectS_append_replicate (cs : Classes) (q : Nat) (c : String) (v : Val) :
+    ∀ (n : Nat) (s : St) (xs : List Val), s.heap[q]? = some (.list c xs) →
+      collectS (evalS cs [.call "append" [v]]) (List.replicate n (.ref q)) s =
+        ({ heap := s.heap.set q (.list c (xs ++ List.replicate n v)), next := s.next,
+           calls := s.calls ++ logN c q "append" n }, .ok (List.replicate n (.val .none))) := by
+  intro n
+  induction n with
+  | zero =>
+    intro s xs hq
+    simp only [List.replicate_zero, collectS, List.append_nil, logN]
+    rw [set_same hq]
+    cases logged c <;> simp
+  | succ n ih =>
+    intro s xs hq
+    simp only [List.replicate_succ, collectS, append_step cs s q c xs v hq]
+    rw [ih _ (xs ++ [v]) (get_set_self hq)]
+    simp only [List.set_set, List.append_assoc, List.singleton_append, logN_succ]
+
+theorem pop_step (cs : Classes) (s : St) (q : Nat) (c : String) (ys : List Val) (z : Val)
+    (hq : s.heap[q]? = some (.list c (ys ++ [z]))) :
+    evalS cs [.call "pop" []] (.ref q) s =
+      ({ heap := s.heap.set q (.list c ys), next := s.next,
+         calls := s.calls ++ (if logged c then [(q, "pop")] else []) }, .ok (.val z)) := by
+  have hcn : (Val.ref q).clsName s.heap = c := by simp [Val.clsName, hq, Obj.cls]
+  simp only [evalS, callStep, callMethod, hq, St.log, hcn, listPop]
+  cases logged c <;> simp
+
+theorem collectS_pop_replicate (cs : Classes) (q : Nat) (c : String) :
+    ∀ (rs : List Val) (s : St) (ys : List Val), s.heap[q]? = some (.list c (ys ++ rs.reverse)) →
+      collectS (evalS cs [.call "pop" []]) (List.replicate rs.length (.ref q)) s =
+        ({ heap := s.heap.set q (.list c ys), next := s.next,
+           calls := s.calls ++ logN c q "pop" rs.length }, .ok (rs.map LRes.val)) := by
+  intro rs
+  induction rs with
+  | nil =>
+    intro s ys hq
+    simp only [List.reverse_nil, List.append_nil] at hq
+    simp only [List.length_nil, List.replicate_zero, collectS, List.map_nil, logN]
+    rw [set_same hq]
+    cases logged c <;> simp
+  | cons z rs ih =>
+    intro s ys hq
+    have hq' : s.heap[q]? = some (.list c ((ys ++ rs.reverse) ++ [z])) := by
+      simpa [List.reverse_cons, List.append_assoc] using hq
+    simp only [List.length_cons, List.replicate_succ, collectS, pop_step cs s q c _ z hq']
+    rw [ih _ ys (get_set_self hq')]
+    simp only [List.set_set, List.map_cons, logN_succ, List.append_assoc]
+
+theorem nodupB_of_nodup : ∀ l : List Nat, l.Nodup → nodupB l = true := by
+  intro l
+  induction l with
+  | nil => intro _; rfl
+  | cons x xs ih =>
+    intro h
+    obtain ⟨h1, h2⟩ := List.nodup_cons.1 h
+    simp only [nodupB, Bool.and_eq_true, Bool.not_eq_true']
+    refine ⟨?_, ih h2⟩
+    cases hc : xs.contains x
+    · rfl
+    · exact absurd (by simpa using hc) h1
+
+theorem nodup_of_nodupB : ∀ l : List Nat, nodupB l = true → l.Nodup := by
+  intro l
+  induction l with
+  | nil => intro _; exact List.nodup_nil
+  | cons x xs ih =>
+    intro h
+    simp only [nodupB, Bool.and_eq_true, Bool.not_eq_true'] at h
+    refine List.nodup_cons.2 ⟨?_, ih h.2⟩
+    intro hm
+    have : xs.contains x = true := by simpa using hm
+    rw [this] at h; cases h.1
+
+/-! ## what surrounds the wildcard evaluation: Coalesce / default, `__stars__`, the mode switch -/
+
+/-- a path fails iff the part in front of its first wildcard cannot be walked -/
+theorem refEval_ok_iff_reachable (cs : Classes) (h : Heap) (steps : List (String × Val)) :
+    ∀ cur, isOkE (refEval cs h steps cur) = reachable cs h cur steps := by
+  induction steps with
+  | nil => intro cur; simp [reachable, preWild, refEval, isOkE]
+  | cons s rest ih =>
+    obtain ⟨op, arg⟩ := s
+    intro cur
+    by_cases hx : (op == "x") = true
+    · simp [reachable, preWild, refEval, isOkE, isWildOp, hx]
+    · by_cases hX : (op == "X") = true
+      · simp [reachable, preWild, refEval, isOkE, isWildOp, hx, hX]
+      · have hnw : isWildOp (op, arg) = false := by simp [isWildOp, hx, hX]
+        have hp : preWild ((op, arg) :: rest) = (op, arg) :: preWild rest := by
+          simp [preWild, hnw]
+        simp only [reachable, hp, refEval, hx, hX, Bool.false_eq_true, if_false]
+        cases refAccess cs h op cur arg with
+        | none => rfl
+        | some r =>
+          cases r with
+          | ok v => simp only; have := ih v; simp only [reachable] at this; exact this
+          | error e => rfl
+
+theorem findIdx?_cons' {α : Type} (p : α → Bool) (a : α) (l : List α) :
+    (a :: l).findIdx? p = if p a then some 0 else (l.findIdx? p).map (· + 1) := by
+  simp [List.findIdx?_cons]
+
+/-- **Coalesce over wildcard paths**: the loop of `Coalesce.glomit` returns the value of the first
+    alternative whose part in front of the first wildcard can be walked, else the default -/
+theorem coalesce_eq (cs : Classes) (h : Heap) (hw : heapWF cs h = true) (hc : classesWF cs = true)
+    (target : Val) (d : Bool) : ∀ (alts : List (List (String × Val))) (i : Nat),
+    (∀ a ∈ alts, wfOps a = true) →
+    coalesce cs h target d alts i =
+      (match alts.findIdx? (reachable cs h target) with
+       | some j =>
+         (match refEval cs h (alts.getD j []) target with
+          | .ok r => .ok (i + j) r
+          | .error _ => .coalesceError)
+       | none => if d then .dflt else .coalesceError) := by
+  intro alts
+  induction alts with
+  | nil => intro i _; simp [coalesce]
+  | cons a rest ih =>
+    intro i hwf
+    have hwa := hwf a (by simp)
+    obtain ⟨he, hne⟩ := evalSteps_eq_refEval cs h (extendChildren_eq_children cs h hw hc) a hwa target
+    have hr := refEval_ok_iff_reachable cs h a target
+    simp only [coalesce, he, findIdx?_cons']
+    cases hre : refEval cs h a target with
+    | ok r =>
+      rw [hre] at hr
+      simp only [isOkE] at hr
+      simp [← hr, hre]
+    | error e =>
+      rw [hre] at hr
+      simp only [isOkE] at hr
+      rw [he, hre] at hne
+      have hg : isGlomErr e = true := by
+        cases e with
+        | pae x => rfl
+        | other c => simp [isPaeOrOk] at hne
+      simp only [← hr, hg, if_true, Bool.false_eq_true, if_false]
+      rw [ih (i + 1) (fun a' ha' => hwf a' (by simp [ha']))]
+      cases hf : List.findIdx? (reachable cs h target) rest with
+      | none => simp
+      | some j =>
+        simp only [Option.map_some, List.getD_cons_succ]
+        cases refEval cs h (rest.getD j []) target with
+        | ok r => simp only [CoOut.ok.injEq, and_true]; omega
+        | error e' => rfl
+
+theorem stars_append (a b : List (String × Val)) : stars (a ++ b) = stars a + stars b := by
+  simp [stars, List.filter_append]
+
+theorem stars_stepsList : ∀ ps : List PathPart,
+    stars (PathPart.stepsList ps) = (ps.map (fun p => stars p.steps)).sum := by
+  intro ps
+  induction ps with
+  | nil => rfl
+  | cons p ps ih => simp [PathPart.stepsList, stars_append, ih]
+
+/-- flattening one level more than there is fails as soon as there is an entry -/
+theorem flattenN_too_deep : ∀ (k : Nat) (xs : List Res), xs.all (nested k) = true →
+    xs.flatMap (leaves k) ≠ [] → flattenN (k + 1) xs = none := by
+  intro k
+  induction k with
+  | zero =>
+    intro xs hx hne
+    cases xs with
+    | nil => simp at hne
+    | cons x xs =>
+      cases x with
+      | val v => simp [flattenN, sumLists]
+      | list ys => simp [nested] at hx
+  | succ k ih =>
+    intro xs hx hne
+    obtain ⟨ys, h1, h2, h3⟩ := sumLists_nested k xs hx
+    have := ih ys h2 (by rw [h3]; exact hne)
+    simp only [flattenN, h1, Option.bind_some] at this ⊢
+    exact this
+
+/-! ### the mode switch -/
+
+theorem stepsOfParts_segs (segs : List (List Char)) :
+    Glom.C01.stepsOfParts (segs.map (fun seg => Glom.C01.Part.seg (Val.str (String.ofList seg)))) =
+      segs.map (fun seg => ("P", Val.str (String.ofList seg))) := by
+  induction segs with
+  | nil => rfl
+  | cons s r ih => simp [Glom.C01.stepsOfParts, ih]
+
+theorem stars_all_P : ∀ steps : List (String × Val), steps.all (fun s => s.1 == "P") = true → stars steps = 0 := by
+  intro steps
+  induction steps with
+  | nil => intro _; rfl
+  | cons s r ih =>
+    intro h
+    simp only [List.all_cons, Bool.and_eq_true, beq_iff_eq] at h
+    obtain ⟨op, arg⟩ := s
+    simp only at h
+    rw [stars_cons, ih h.2, h.1]
+    decide
+
+theorem wfOps_all_P : ∀ steps : List (String × Val), steps.all (fun s => s.1 == "P") = true → wfOps steps = true := by
+  intro steps
+  induction steps with
+  | nil => intro _; rfl
+  | cons s r ih =>
+    intro h
+    simp only [List.all_cons, Bool.and_eq_true, beq_iff_eq] at h
+    obtain ⟨op, arg⟩ := s
+    simp only at h
+    simp only [wfOps, ih h.2, h.1, Bool.and_true]
+    decide
 
 end Glom.C14
